@@ -12,14 +12,14 @@ VARIABLES d
 
 TitleKinds == {"plain", "space", "quote", "dquote", "brace", "format", "digit", "unicode", "long", "dquote3", "dquote_last", "squote3"}
 ConstKinds == {"int", "float", "bigint", "bool", "text", "text_quote", "text_backslash", "text_newline", "text_brace",
-               "datetime", "date", "time", "timedelta", "errstr", "empty", "numtext", "eqtext_const"}
+               "datetime", "date", "time", "timedelta", "errstr", "empty", "numtext", "eqtext_const", "datatable"}
 FormulaKinds == {"none", "valid_arith", "valid_fn", "valid_nested3", "valid_crosssheet", "valid_wholecol", "array_formula",
                  "unknown_fn", "unknown_sheet", "far_ref", "lowercase_fn", "name", "error_literal", "unbalanced", "trailing_op",
                  "lit_quote", "lit_backslash", "lit_brace", "lit_newline", "adjacent_pct", "match2", "xmatch2", "vlookup3",
                  "empty_formula", "only_eq_space", "nested4", "self_ref", "diag_range", "cross_sheet_range", "column_noarg",
                  "count_mixed", "index_multi", "sumif_cell", "address5", "text_fn", "neg_pct_chain",
                  "row_zero", "abs_row_zero", "range_row_zero", "col_4letters", "wholecol_4letters", "col_beyond_xfd", "row_huge", "brackets8", "half_open_area", "half_open_area2", "empty_title", "empty_quoted_title",
-                 "exp_huge", "long_sum", "sumif_wholecol_target", "column_4letters", "crit_unicode_digit", "unicode_digit_literal"}
+                 "exp_huge", "long_sum", "sumif_wholecol_target", "column_4letters", "crit_unicode_digit", "unicode_digit_literal", "crit_leading_zero"}
 Placements == {"origin", "gap"}
 
 Rejecting == {"unknown_fn", "unknown_sheet", "lowercase_fn", "name", "error_literal", "unbalanced", "trailing_op",
@@ -34,14 +34,16 @@ MustBeOk == {"none", "valid_arith", "valid_fn", "valid_nested3", "valid_crossshe
 \* a title containing a quote must be spelled with a doubled quote inside a reference ('it''s'!B1); the supported
 \* reference grammar has no such escape, so rejecting that reference is admissible
 \* a lone "=" is stored by the workbook writer as a TEXT cell (it is not a formula): a constant or a rejection are both admissible
-Expected(f, t) == IF f \in Rejecting THEN {"lib"}
+\* a cell that holds an object instead of a value (a what-if data table) has no translation: rejecting the workbook is admissible
+Expected(f, t, c) == IF f \in Rejecting THEN {"lib"}
+                  ELSE IF c = "datatable" THEN {"ok", "lib"}
                   ELSE IF f \in {"valid_crosssheet"} /\ t \in {"quote", "squote3"} THEN {"ok", "lib"}
                   ELSE IF f \in MustBeOk THEN {"ok"} ELSE {"ok", "lib"}
 
 Init == d \in [title : TitleKinds, const : ConstKinds, formula : FormulaKinds, place : Placements]
         /\ PrintT(ToJson([title |-> d.title, const |-> d.const, formula |-> d.formula, place |-> d.place,
-                          expected |-> Expected(d.formula, d.title)]))
+                          expected |-> Expected(d.formula, d.title, d.const)]))
 Next == UNCHANGED d
 \* the obligation is total: every descriptor has a non-empty set of admissible outcome classes within {ok, lib}
-Total == Expected(d.formula, d.title) # {} /\ Expected(d.formula, d.title) \subseteq {"ok", "lib"}
+Total == Expected(d.formula, d.title, d.const) # {} /\ Expected(d.formula, d.title, d.const) \subseteq {"ok", "lib"}
 =============================================================================
